@@ -8,8 +8,10 @@ package gmars
 import (
 	"encoding/json"
 	"fmt"
+	"io"
 	"os"
 	"strconv"
+	"strings"
 )
 
 type vRecord struct {
@@ -187,3 +189,23 @@ func vUF2(name string, a, b int) int {
 func vStateCount(name string) int { return 0 }
 
 var _ = fmt.Sprintf
+
+// vRuneReader: a reader over n nondeterministic runes, each ASCII or an
+// invalid byte (which ReadRune reports as U+FFFD).
+func vRuneReader(name string, n int) io.Reader {
+	b := make([]byte, 0, n)
+	for i := 0; i < n; i++ {
+		r := vNext(name)
+		switch {
+		case r < 0x80:
+			b = append(b, byte(r))
+		case r == 0xFFFD:
+			b = append(b, 0xFF)
+		default:
+			panic(vAssumeFail{})
+		}
+	}
+	return strings.NewReader(string(b))
+}
+
+func vTextReader(s string) io.Reader { return strings.NewReader(s) }
